@@ -41,7 +41,9 @@ func formatJwt(kind string, jwtString string) ([]byte, error) {
 
 `
 	w := bytes.NewBuffer(nil)
-	kind = strings.ToUpper(kind)
+	// the kind is only a label on the BEGIN/END lines: keep it on one line, or the
+	// decorated token no longer parses back (a generic claim's kind is free text)
+	kind = strings.Join(strings.Fields(strings.ToUpper(kind)), " ")
 	_, err := fmt.Fprintf(w, templ, kind, jwtString, kind)
 	if err != nil {
 		return nil, err
